@@ -26,6 +26,36 @@ CHECKS = {
  "C15": ("report-stream monitor (my own Reporter cutting the stream into tasks, core snapshots at every TaskPop) checked against the reference event stream; StateRecorder compared with two independent folds after every cycle",
          "Runtime monitoring of the reporting hooks: per task, changed cells must be a subset of reported cells which must be a subset of the cells the reference semantics may touch; TaskPop must arrive before any effect and name the reference PC; terminate reports must coincide with deaths; the bundled StateRecorder must equal the last-toucher fold of both the real stream and the reference event stream, and be empty after Reset.",
          "Trusted: ref/mars step events. The order of reports within a task and read reports are not checked.", "3/C15"),
+ "C03": ("translation check by construction: abstract programs -> independent meaning (own evaluator, label/EQU tables, dialect default tables) vs real CompileWarrior on >= 3 random surface renderings of each program",
+         "Runtime monitoring of the assembler: thousands of abstract programs are each rendered several ways (case, spacing, comments, colons, own-line labels, alpha-renaming, EQU placement, missing final newline, text after END) and every rendering must assemble to the by-construction meaning (code, entry point, metadata), hence all renderings agree with each other.",
+         "Trusted: ref/asm meaning (conventions listed in DESIGN.md section 2). Values beyond 32 bits, name collisions with mnemonics and labels inside FOR bodies are outside the generated domain.", "3/C03"),
+ "C05": ("process-level monitors around every CompileWarrior call on a hostile corpus: panic recovery, error-xor-warrior contract, goroutine-leak monitor (goroutine profile), CPU-time progress monitor with deadlock examination, RSS sampling; -race pass in thorough",
+         "Runtime monitoring of termination and cleanliness: fixed hostile programs plus mutated programs, repository warriors and token soup; a call that burns its CPU budget, blocks forever, panics, returns both or neither of (error, warrior), or leaves a goroutine blocked in a channel operation is a violation. 'Time proportional to size' is decided as 'below a fixed generous CPU budget'.",
+         "An unbounded 'eventually' is not decidable by a finite run; FOR/EQU blow-up (documented semantics) is kept out of the workload by an expansion estimate.", "3/C05"),
+ "C06": ("predicate monitor on every successful CompileWarrior result over near-valid mutations and the hostile corpus; independent ICWS'88 legality table",
+         "Runtime monitoring: whatever the assembler accepts is checked against the structural predicate and, in ICWS88 mode, against an independently written table of legal '88 instructions with implied modifiers. Workload concentrates on the boundaries (entry point at len-1/len, length at max/max+1, '94-only modes and opcodes under '88).",
+         "Trusted: the '88 table in ref/asm/prog.go (written from the standard; SLT with immediate B allowed as the suite documents).", "3/C06"),
+ "C07": ("differential monitor: real assembler vs independent big.Int precedence-climbing evaluator on generated expressions in four positions (operand, ORG, FOR count, ;assert)",
+         "Runtime monitoring of expression evaluation: tens of thousands of expression trees with sign runs, negative division/remainder operands, EQU-introduced signs and predefined constants are placed in operand fields (exact recovery under core size 2^34), ORG, FOR counts and ;assert lines; the assembled value / accept-reject decision must match exact integer arithmetic.",
+         "Trusted: ref/asm/expr.go evaluator. Values beyond 32 bits are only required not to panic.", "3/C07"),
+ "C08": ("three-way differential monitor: CompileWarrior(FOR program) vs CompileWarrior(harness-made unrolling) vs by-construction meaning; known-finding strata with exact signatures",
+         "Runtime monitoring of FOR/ROF expansion on generated block trees (sequence, nesting <= 3, zero counts, EQU counts, counters in arithmetic, block labels). Two genuine defects are recorded as known findings and matched by input predicate + exact error text; every other discrepancy is a violation.",
+         "Trusted: ref/asm Unroll + Meaning. FOR counts only see EQUs written before the block (gmars' documented scanning order).", "3/C08"),
+ "C09": ("round-trip monitor: canonical printer + layout perturbations -> real ParseLoadFile and real CompileWarrior on the same text -> compare with the printed warrior; first instruction enumerates every legal form",
+         "Runtime monitoring of load-file round trips in both dialects with unsigned/signed/congruent field spellings and products of ten layout-only perturbations; both readers must reproduce code and entry point exactly.",
+         "Trusted: the printer in ref/asm/loadfile.go (layout of the repository's own test_files).", "3/C09"),
+ "C10": ("predicate + conservation monitor on ParseLoadFile over corrupted and byte-by-byte truncated load files; structural line accountant as the independent count",
+         "Runtime monitoring of the loader's rejection behaviour: corrupted canonical files (14 corruption kinds), truncation at every byte offset; on success the result must satisfy the well-formedness predicate, the '88 table, and the count of instructions must equal the count of instruction-shaped lines seen by a purely structural accountant (nothing skipped silently).",
+         "Trusted: the accountant (first-field classification only) and the '88 table.", "3/C10"),
+ "C14": ("Go race detector over a concurrent job mix (assemblies, loads, simulators sharing *WarriorData) with sequential-vs-concurrent result comparison; aliasing monitor (caller scribbles after AddWarrior)",
+         "Runtime monitoring with the race detector: each job's concurrent result must equal its result when run alone, the detector must report nothing (reports counted from log files, de-duplicated), shared warrior data must stay untouched, and a simulator must be unaffected by later changes to the caller's data.",
+         "Interleavings are those the Go scheduler produced (GOMAXPROCS 1/2/4/16, up to 32 goroutines); a clean run is not a proof of race freedom.", "3/C14"),
+ "C16": ("independent pMARS-listing reader applied to the real LoadCode() output of warriors obtained through the real assembler/loader or hand-made; first instruction enumerates every form",
+         "Runtime monitoring of the -A listing: every legal form, fields at the sign threshold, every entry point, three simulator modes; the listing read back with the pMARS conventions must denote exactly the warrior.",
+         "Trusted: ref/asm ReadListing (START label, ORG START / END START, signed fields, '88 without modifiers).", "3/C16"),
+ "C17": ("process monitor around the freshly built cmd/gmars: stdout/stderr/exit status parsed and compared with tallies of the reference MARS on by-construction warriors; preset table written from the README",
+         "Runtime monitoring of the command-line tool over flag vectors (-s -p -c -l -8 -preset -F -r), generated and hand-made warriors with known fates; fixed placement: exact tallies from the reference MARS; random placement: conservation of rounds and agreement of tie counts.",
+         "Trusted: ref/mars battle + ref/asm meaning; options are read as: limits = core size, distance = length, presets as in the README table.", "3/C17"),
 }
 NOT_YET = {}
 
